@@ -371,7 +371,9 @@ func (e *Engine) runPath(run *HarnessRun, item workItem) *PathResult {
 			p.Unsupp = &Candidate{Harness: run.Name, Params: run.Params, Kind: "unsupported-sample", ID: p.Msg, Tags: p.Tags, Values: p.concreteValues(e, m)}
 		}
 	}
-	if (p.Status == "ok" || p.Status == "stop") && len(p.pfMemo) == 0 && !p.MapOrder {
+	// (a path stopped by a concretely false assertion is reported as a candidate; its
+	// inputs fail natively by construction and are no validation trace)
+	if (p.Status == "ok" || (p.Status == "stop" && len(p.Candidates) == 0)) && len(p.pfMemo) == 0 && !p.MapOrder {
 		if m := e.ensureModel(); m != nil {
 			p.Sample = &Candidate{Harness: run.Name, Params: run.Params, Kind: "sample", Tags: p.Tags, Values: p.concreteValues(e, m), Observed: p.predicted(e, m)}
 		}
